@@ -21,7 +21,7 @@ Open Scope Z_scope.
    shared mutable state: every call returns its sequential value under every schedule, whatever
    the cache variant (duplicated work, never a wrong or failed call) *)
 Theorem memo_schedule_independent :
-  forall cfg f conv, conv_correct f conv ->
+  forall cfg f conv, conv_correct f conv -> memo_clear_bound cfg = None ->
   forall sched ops progs c r,
     In (c, r) (all_outputs (run cfg f conv sched (init ops progs))) ->
     is_cache_call c = false -> r = Ok (f (ckey c)).
@@ -40,7 +40,7 @@ Print Assumptions cache_schedule_independent.
 
 (* the same for ANY configuration whose lookup loops iterate a snapshot (one C call) *)
 Theorem cache_snapshot_schedule_independent :
-  forall cfg f conv, conv_correct f conv ->
+  forall cfg f conv, conv_correct f conv -> memo_clear_bound cfg = None ->
   forall sched ops progs c r,
     all_snapshot cfg = true ->
     In (c, r) (all_outputs (run cfg f conv sched (init ops progs))) -> r = Ok (f (ckey c)).
@@ -51,7 +51,7 @@ Print Assumptions cache_snapshot_schedule_independent.
    RuntimeError raised by a transpose/reshape lookup on a cache-enabled array — never a wrong value,
    never another error *)
 Theorem cache_only_failure_is_deque_race :
-  forall cfg f conv, conv_correct f conv ->
+  forall cfg f conv, conv_correct f conv -> memo_clear_bound cfg = None ->
   forall sched ops progs c r,
     In (c, r) (all_outputs (run cfg f conv sched (init ops progs))) ->
     r = Ok (f (ckey c)) \/
@@ -67,6 +67,15 @@ Theorem cache_race_refuted :
     In (c, Raise RuntimeError) (all_outputs (run cfg f conv sched (init [] progs))).
 Proof. exact race_fine. Qed.
 Print Assumptions cache_race_refuted.
+
+(* the extracted fact the memo theorems depend on: the wrapper of _memoize_dtype never removes an entry.
+   With deletion (here: a miss clears the dict once it holds two entries) a hit can fail: *)
+Theorem memo_no_deletion :
+  memo_clear_bound src_config = None /\
+  forall cfg f conv, memo_clear_bound cfg = Some 2%nat ->
+    exists progs sched c, In (c, Raise OtherError) (all_outputs (run cfg f conv sched (init [] progs))).
+Proof. exact (conj (proj1 (proj2 (proj2 (proj2 src_shapes_modelled)))) memo_deletion_race). Qed.
+Print Assumptions memo_no_deletion.
 
 (* what holds of the source as it is now (the configuration is generated from /repo) *)
 Theorem cache_source_verdict :
